@@ -181,6 +181,7 @@ func (e *Engine) verifyFunction(fn *ssa.Function) (rep FuncReport) {
 	e.curEntry = fn
 	e.curPhaseB = e.cfg.PhaseB(fn)
 	e.paths = 0
+	e.steps = 0
 	defer func() {
 		rep.Secs = time.Since(t0).Seconds()
 		rep.Paths = e.paths
